@@ -32,6 +32,7 @@ func init() {
 			{"C01-R4", "per-type frame rule against the skip tables", c01r4},
 			{"C01-R5", "proxy-state refresh vs snapshot rebuild", c01r5},
 			{"C01-R6", "reason markers narrow a push only when they are the only reason", c01r6},
+			{"C01-R7", "a change marker rebuilds the snapshot index that holds what it marks", c01r7},
 		},
 	})
 }
@@ -675,6 +676,10 @@ var knownValueDependentSkips = map[string]string{
 	"LDS/*/PeerAuthentication": "skipped only when the policy's namespace is neither the proxy's config namespace nor the root namespace; PeerAuthentication is matched against exactly those (PolicyMatcherForProxy uses ConfigNamespace; root namespace = mesh-wide), also for waypoints (matched by the waypoint's own namespace)",
 	"CDS/Waypoint/RequestAuthentication":                    "decided by the JWKS fetch-mode feature flag, not by content: only when Envoy fetches JWKS is there a JWKS cluster to rebuild (fix af6b501)",
 	"CDS/Waypoint(east-west gateway)/RequestAuthentication": "same feature-flag condition as for waypoints",
+	// the per-proxy relevance filter (proxyDependentOnConfig)
+	"PROXY/SidecarProxy/*":      "SidecarScope.DependsOnConfig on the current and the previous scope: the scope records every config it imported (configDependencies), which is what the sidecar's resources are built from",
+	"PROXY/Router/ServiceEntry": "dropped only when the service is visible to the gateway neither in its current nor in its previous (default) sidecar scope, or is not attached to the gateway under FilterGatewayClusterConfig",
+	"PROXY/*/Address":           "decided by the ScopedAddressPushes flag and by whether the proxy subscribes to the Address type at all",
 }
 
 type stateRow struct{ pkg, typ, field string }
@@ -793,6 +798,60 @@ func c01r4(c *Ctx) {
 		}
 	}
 	c.Stat("value_dependent_skips_not_decided", nCond)
+	// the per-proxy relevance filter in front of all types: proxyDependentOnConfig under (proxy type, kind)
+	pdc := p.Func(pkgXds, "", "proxyDependentOnConfig")
+	allKinds := sortedKeys(kindState)
+	for _, extra := range []string{"ServiceEntry", "Secret", "ConfigMap", "HTTPRoute", "KubernetesGateway", "Address", "DNSName", "Endpoints"} {
+		if !contains(allKinds, extra) {
+			allKinds = append(allKinds, extra)
+		}
+	}
+	sort.Strings(allKinds)
+	for _, v := range variants[:3] {
+		for _, k := range allKinds {
+			if _, err := func() (x int, err any) {
+				defer func() { err = recover() }()
+				p.Const(pkgKind, k)
+				return 0, nil
+			}(); err != nil {
+				continue // not a kind of this tree
+			}
+			sk := newSpec(p, v.pname, v.ew, k)
+			live := sk.live(pdc)
+			t, f, comp := false, false, false
+			for _, b := range pdc.Blocks {
+				if live != nil && !live[b] {
+					continue
+				}
+				r, ok := b.Instrs[len(b.Instrs)-1].(*ssa.Return)
+				if !ok || len(r.Results) != 1 {
+					continue
+				}
+				if bv, isC := constBool(retVal(r, 0)); isC {
+					if bv {
+						t = true
+					} else {
+						f = true
+					}
+				} else {
+					comp = true
+				}
+			}
+			if !(comp || (t && f)) {
+				continue
+			}
+			condKey := "PROXY/" + v.name + "/" + k
+			_, known := knownValueDependentSkips[condKey]
+			if !known {
+				_, known = knownValueDependentSkips["PROXY/"+v.name+"/*"]
+			}
+			if !known {
+				_, known = knownValueDependentSkips["PROXY/*/"+k]
+			}
+			c.Check("content-dependent skip is a confirmed one: "+condKey, pdc.Pos(), known,
+				"for this proxy type proxyDependentOnConfig can both keep and drop a change of kind "+k+" depending on the changed object or the proxy: the check cannot decide that what the proxy holds is unaffected by the dropped changes, and this (proxy, kind) is not among the content-dependent filters that were confirmed by reading (a new one needs its argument recorded in knownValueDependentSkips)")
+		}
+	}
 	c.Floor(80)
 }
 
@@ -1099,4 +1158,54 @@ func c01r6(c *Ctx) {
 	}
 	c.Check("reason-marker tests in the needsPush family found", token.NoPos, n >= 1, "no ReasonStats.Has test reachable from the needsPush functions (the headless-endpoint marker)")
 	c.Floor(2)
+}
+
+
+// C01-R7: marker kinds. Some keys in ConfigsUpdated do not name a configuration object but mark a change of data the
+// snapshot keeps a COPY of. Hand-written table marker -> snapshot field holding the copy; for each row the rule finds
+// (through the write-effect sets of the init* methods) which guarded init* rebuilds that field in updateContext and
+// requires the marker's case in the kind switch to set one of the flags of that guard. Otherwise the push for the marker
+// is sent (generators that read the copy do push for it) but from a snapshot whose copy was carried over unchanged.
+var markerState = map[string][]stateRow{
+	// endpoints of a headless HTTP-only Service moved: the NDS name table reads the pod IPs from the per-port endpoint
+	// copy the snapshot takes from the registries in initServiceRegistry
+	"DNSName": {{pkgModel, "serviceIndex", "instancesByPort"}},
+	// the same copy for every other service change
+	"ServiceEntry": {{pkgModel, "serviceIndex", "instancesByPort"}, {pkgModel, "serviceIndex", "HostnameAndNamespace"}},
+}
+
+func c01r7(c *Ctx) {
+	p := c.P
+	m := buildUCModel(p)
+	n := 0
+	for _, k := range sortedKeys(markerState) {
+		for _, row := range markerState[k] {
+			fv := p.Field(row.pkg, row.typ, row.field)
+			// the guarded init* whose graph (within package model) writes the field
+			var br *ucBranch
+			for i := range m.branches {
+				b := &m.branches[i]
+				fn := p.Func(pkgModel, "PushContext", b.init)
+				eff := effectsOf(p.CG().Reach([]*ssa.Function{fn}, func(f *ssa.Function) bool { return funcPkgPath(f) != istioMod+"/"+pkgModel }))
+				if _, w := eff.Writes[fv]; w && len(b.flags) > 0 {
+					br = b
+					break
+				}
+			}
+			n++
+			if br == nil {
+				c.Check("marker "+k+": a guarded init rebuilds "+row.typ+"."+row.field, token.NoPos, false, "no guarded init* of updateContext writes this field: the table row no longer matches the code")
+				continue
+			}
+			sets := false
+			for _, fl := range br.flags {
+				if contains(m.flagKinds[fl], k) {
+					sets = true
+				}
+			}
+			c.Check("marker "+k+" rebuilds "+row.typ+"."+row.field+" ("+br.init+")", br.pos, sets,
+				"a "+k+" key in ConfigsUpdated marks a change of the data "+row.typ+"."+row.field+" is copied from, but its case in updateContext sets none of the flags ("+strings.Join(br.flags, ", ")+") that make "+br.init+" rebuild the copy: the push for the marker is generated from the carried-over copy (e.g. the NDS name table of a headless service keeps the old pod IPs) while a fresh control plane reads the current data")
+		}
+	}
+	c.Floor(n)
 }
